@@ -73,6 +73,27 @@ func (p *C12) Generate(seed uint64, run int) *Case {
 		b.Argv = []string{"text", "parse"}
 		c.Labels = append(c.Labels, "output-above-mebibyte")
 	}
+	if run%600 == 17 {
+		// five hundred to a thousand items converted in syllable mode, with
+		// modulations: work split by size shares the converter's state (w17-C12-3)
+		// (notes common to all the keys used, so that every item converts)
+		var sb strings.Builder
+		n, next := 520+r.Intn(700), 20+r.Intn(60)
+		for i := 0; i < n; i++ {
+			if r.Chance(1, 12) {
+				sb.WriteString("R[1/2]")
+			} else {
+				sb.WriteString(model.Pick(r, []string{"C", "D", "E", "G", "A"}) + model.Pick(r, []string{"", "m", "_7"}) + model.Pick(r, []string{"[1]", "[1/2]", "[2,1/4]"}))
+			}
+			if i == next {
+				sb.WriteString("{key=" + model.Pick(r, []string{"C", "G", "F", "Am", "Em", "Dm"}) + "}")
+				next += 20 + r.Intn(120)
+			}
+			sb.WriteString(model.Pick(r, []string{" ", " ", "\n"}))
+		}
+		b = Base{Argv: []string{"text", "conv", "syllable", "--key", model.Pick(r, []string{"C", "G", "F", "Am"})}, Input: []byte(sb.String()), InputArg: true, Class: "text"}
+		c.Labels = append(c.Labels, "long-piece-converted")
+	}
 	if run%650 == 13 {
 		// track counts around the limits of the header and of the reader
 		pinned := [][]string{{"write", "--track", "32769"}, {"write", "--track", "65535"}, {"write", "event", "--track", "32767"}, {"write", "--track", "40000"}, {"write", "--track", "32768"}}
